@@ -99,6 +99,9 @@ def generate(tier, rng):
                         # constructor, or through set_prms on a model that held other parameters)
                         cases.append(dict(cases[-1], touch_params=True))
                         cases.append(dict(cases[-1], preset=1.25))
+                        if lt["kind"] != "probe":
+                            # the same table after the settings were changed on a model in use and the same lifetime declared again
+                            cases.append(dict(cases[-3], resettle=True))
     return cases
 
 
